@@ -23,6 +23,43 @@ FUNCTIONS = ["SuccessionDiagram._expand_one_node (sorted children)", "expand_* s
 OTHER = "x, !y\ny, x | z\nz, !z & x\n"
 
 
+class OrdSet(set):
+    """a set whose iteration order is fixed by the harness (ascending / descending): the only hash-seed dependent
+    behaviour of CPython that the library can observe is the iteration order of sets of strings; running the code under
+    two opposite orders exposes any dependence deterministically, for every network of the class"""
+    ORDER = "asc"
+
+    def __iter__(self):
+        items = sorted(set.__iter__(self), key=repr)
+        return iter(items if OrdSet.ORDER == "asc" else items[::-1])
+
+    def _w(self, r):
+        return OrdSet(r) if isinstance(r, set) and not isinstance(r, OrdSet) else r
+
+    def __sub__(self, o): return self._w(set.__sub__(self, o))
+    def __and__(self, o): return self._w(set.__and__(self, o))
+    def __or__(self, o): return self._w(set.__or__(self, o))
+    def __rsub__(self, o): return self._w(set.__rsub__(self, o))
+    def __rand__(self, o): return self._w(set.__rand__(self, o))
+    def __ror__(self, o): return self._w(set.__ror__(self, o))
+    def copy(self): return OrdSet(self)
+    def __copy__(self): return OrdSet(self)
+
+
+def with_set_order(order, f):
+    """run f() with the name `set` bound to OrdSet inside every biobalm module"""
+    import sys as _sys
+    mods = [m for k, m in list(_sys.modules.items()) if k == "biobalm" or k.startswith("biobalm.")]
+    OrdSet.ORDER = order
+    for m in mods:
+        m.__dict__["set"] = OrdSet
+    try:
+        return f()
+    finally:
+        for m in mods:
+            m.__dict__.pop("set", None)
+
+
 def run_once(rules, strat, names):
     from biobalm import SuccessionDiagram
     from biobalm.control import succession_control
@@ -44,13 +81,14 @@ def run_once(rules, strat, names):
     # interventions towards the first minimal trap space (if any), both strategies
     ivs = []
     mts = sd.minimal_trap_spaces()
-    if mts:
-        target = dict(sd.node_data(mts[0])["space"])
+    for mt in mts[:3]:
+        target = dict(sd.node_data(mt)["space"])
         if target:
             for st in ("internal", "all"):
                 sd2 = SuccessionDiagram.from_rules(rules)
                 for iv in succession_control(sd2, target, strategy=st, successful_only=False):
                     ivs.append(repr(iv))
+                    ivs.append(repr(list(iv.all_control_strategies())))
     return json.loads(json.dumps({"dump": dump, "seeds": seeds, "interventions": ivs}, default=str))
 
 
@@ -72,27 +110,63 @@ def fresh_process(rules, strat, names, hashseed):
     raise RuntimeError("fresh process failed: " + p.stderr[-500:])
 
 
+_SEEDS = {}
+
+
+def pick_hash_seeds(names):
+    """two PYTHONHASHSEED values under which a set of the variable names iterates in different orders (for every
+    pair of names if possible): calibrated once per worker, so that the sampled seeds are not accidentally equivalent"""
+    key = tuple(names)
+    if key in _SEEDS:
+        return _SEEDS[key]
+    orders = {}
+    code = "import sys; n=%r; print([list(set(n)), [list({a,b}) for a in n for b in n if a<b]])" % (list(names),)
+    for hs in range(1, 25):
+        p = subprocess.run([sys.executable, "-c", code], capture_output=True, text=True, env=dict(os.environ, PYTHONHASHSEED=str(hs)))
+        orders[hs] = p.stdout.strip()
+    seeds = sorted(orders)
+    best = (seeds[0], seeds[1])
+    bestd = -1
+    for a in seeds:
+        for b in seeds:
+            if a < b:
+                pa, pb = eval(orders[a])[1], eval(orders[b])[1]
+                d = sum(1 for x, y in zip(pa, pb) if x != y) + (eval(orders[a])[0] != eval(orders[b])[0])
+                if d > bestd:
+                    bestd, best = d, (a, b)
+    _SEEDS[key] = best
+    return best
+
+
 def execute(rules, strat, names, cross=True):
     a = run_once(rules, strat, names)
+    asc = with_set_order("asc", lambda: run_once(rules, strat, names))
+    desc = with_set_order("desc", lambda: run_once(rules, strat, names))
     CTX.opaque += 1        # the unrelated diagram is not part of the symbolic network
     try:
         unrelated()
     finally:
         CTX.opaque -= 1
     b = run_once(rules, strat, names)
-    out = {"a": a, "b": b}
+    out = {"a": a, "b": b, "asc": asc, "desc": desc}
     if cross:
-        out["c1"] = fresh_process(rules, strat, names, 1)
-        out["c2"] = fresh_process(rules, strat, names, 4242)
+        s1, s2 = pick_hash_seeds(names)
+        out["c1"] = fresh_process(rules, strat, names, s1)
+        out["c2"] = fresh_process(rules, strat, names, s2)
+        out["hash_seeds"] = [s1, s2]
     return out
 
 
 def assertion(B, out):
     parts = [("second build in the same process (after an unrelated diagram) gives identical ids, spaces, edges, motifs, depths, seeds, interventions",
               B.const(out["a"] == out["b"]))]
+    parts.append(("results do not depend on the iteration order of sets (ascending vs descending order forced inside the library)",
+                  B.const(out["asc"] == out["desc"] and out["asc"] == out["a"])))
     for k in ("c1", "c2"):
         if k in out:
-            parts.append((f"fresh interpreter with another PYTHONHASHSEED ({k}) gives identical results", B.const(out["a"] == out[k])))
+            parts.append((f"fresh interpreter with another PYTHONHASHSEED ({k}, seeds {out.get('hash_seeds')}) gives identical results", B.const(out["a"] == out[k])))
+    if "c1" in out and "c2" in out:
+        parts.append(("the two fresh interpreters (hash seeds chosen so that sets of the variable names iterate in different orders) agree", B.const(out["c1"] == out["c2"])))
     return parts
 
 
@@ -142,6 +216,12 @@ def tasks(tier, seed, selftest=False):
             break
         T.append({"prop": PROP, "family": "D3", "label": f"D3/{st}", "timebox": 40 if q else 900, "seed": seed,
                   "params": {"strat": st, "cross_every": 5 if q else 2}})
+        if st in ("bfs", "build"):
+            T.append({"prop": PROP, "family": "SYM4", "label": f"SYM4/{st}", "timebox": 40 if q else 900, "seed": seed,
+                      "params": {"strat": st, "cross_every": 4}})
+            # networks with symmetric driver sets (two valuations of the same variable pair force a third variable)
+            T.append({"prop": PROP, "family": "U3sym", "label": f"U3sym/{st}", "timebox": 40 if q else 900, "seed": seed,
+                      "params": {"strat": st, "cross_every": 1}})
         if not q:
             T.append({"prop": PROP, "family": "B22", "label": f"B22/{st}", "timebox": 600, "seed": seed, "params": {"strat": st, "cross_every": 4}})
     return T
@@ -150,7 +230,8 @@ def tasks(tier, seed, selftest=False):
 def main(tier, seed, t0, selftest=False):
     results = common.run_tasks(tasks(tier, seed, selftest))
     return common.finish(PROP, tier, seed, "model_checking", results, t0, selftest=selftest, functions=FUNCTIONS,
-                         bounds={"strategies": ",".join(STRATS) + " + succession_control (both strategies) towards the first minimal trap space",
-                                 "families": "U2, D3 (quick, time-boxed; fresh-interpreter comparison on every 3rd/5th class); + B22 (thorough)",
-                                 "hash seeds": "harness process seed, PYTHONHASHSEED=1 and 4242 in fresh interpreters (sampled dimension; CPython string hashing is not encoded)"},
+                         bounds={"strategies": ",".join(STRATS) + " + succession_control (both strategies, incl. all_control_strategies()) towards the first three minimal trap spaces",
+                                 "set order": "every class additionally runs with all biobalm-level set() objects iterating in ascending and in descending order (deterministic stand-in for the hash seed; class-constant)",
+                                 "families": "U2, D3, SYM4 (4 variables, two-variable motif with symmetric two-variable drivers), U3sym (3 variables constrained by the solver to have symmetric driver sets) (quick, time-boxed; fresh-interpreter comparison on every 3rd/5th/every class); + B22 (thorough)",
+                                 "hash seeds": "harness process seed + two PYTHONHASHSEEDs calibrated per variable-name set so that sets of the names iterate in maximally different orders (sampled dimension; CPython string hashing is not encoded)"},
                          assumptions=["the cross-process comparison is per representative; only the in-process comparison is class-constant"])
